@@ -100,6 +100,9 @@ def summary_text(rng, allow_lead_blank=False):
         s = s[1:]
     if not s or all(c in ZS or c == "\t" for c in s):  # ... nor consist of blank characters only
         s = "x" + s
+    if rng.random() < 0.012:
+        # lines made only of control characters that many "is blank" notions include but the specification's does not
+        s = rng.choice(["\x0c", "\x0b", "\x0c\x0b", "\x0c ", "\x0b\t", "\x0c \x0b ", "\x0b\x0b  "])
     if rng.random() < 0.1: s += rng.choice([" ", "  ", "\t"])        # trailing blanks are part of the text
     if allow_lead_blank and rng.random() < 0.15: s = rng.choice([" ", "  ", "\t"]) + s
     return s
